@@ -1,7 +1,307 @@
 import M3d.Basic
-/-! Line-protocol handler for C14. Core-only. (stub) -/
-namespace M3d.Drv.C14
+import M3d.Model.Surface
+import M3d.Model.Triangulate
+/-!
+Line-protocol handler for C14.  Core-only.
 
-def handleAll (ws : List String) : Option String := none
+Every certificate kind (`ear mesh single face profile`) carries the REAL output of the Go code
+(triangles as input-vertex ids) inside the op line; the handler evaluates the proved checker
+`M3d.Tri.certOk` (soundness: `M3d.C14.triangulation_certificate_sound` …) on it at `Rat` and prints
+what the property requires.  The kinds `mono vtype splits earseq` print the output of the faithful
+models (`monoTris`, `vertexType`, `sweepSplits`, `triangulate`) for an exact comparison.
+-/
+namespace M3d.Drv.C14
+open M3d M3d.Tri M3d.Surface
+
+abbrev Q := Rat
+
+structure Input where
+  den : Nat
+  lens : List Nat
+  pts : List (P2 Q)
+  rest : List String
+
+def takeInts : Nat → List String → Option (List Int × List String)
+  | 0, ws => some ([], ws)
+  | n + 1, w :: ws => do
+      let i ← w.toInt?
+      let (is, r) ← takeInts n ws
+      pure (i :: is, r)
+  | _, [] => none
+
+def pairUp : List Int → List (Int × Int)
+  | a :: b :: t => (a, b) :: pairUp t
+  | _ => []
+
+def parseLoops (den : Nat) : Nat → List String → Option (List Nat × List (P2 Q) × List String)
+  | 0, ws => some ([], [], ws)
+  | k + 1, w :: ws => do
+      let n ← w.toNat?
+      let (is, r) ← takeInts (2 * n) ws
+      let ps : List (P2 Q) := (pairUp is).map fun p => ⟨(p.1 : Q) / (den : Q), (p.2 : Q) / (den : Q)⟩
+      let (ls, qs, r') ← parseLoops den k r
+      pure (n :: ls, ps ++ qs, r')
+  | _, [] => none
+
+/-- `D den L k n₁ x y … n₂ … rest` -/
+def parseInput : List String → Option Input
+  | "D" :: d :: "L" :: k :: ws => do
+      let den ← d.toNat?
+      if den = 0 then none
+      let k ← k.toNat?
+      let (lens, pts, rest) ← parseLoops den k ws
+      pure ⟨den, lens, pts, rest⟩
+  | _ => none
+
+inductive TrisField | panic | foreign | tris (ts : List Tri)
+
+def triples : List Nat → List Tri
+  | a :: b :: c :: t => (a, b, c) :: triples t
+  | _ => []
+
+def parseTris : List String → Option (TrisField × List String)
+  | "T" :: "x" :: r => some (.panic, r)
+  | "T" :: "f" :: r => some (.foreign, r)
+  | "T" :: k :: ws => do
+      let k ← k.toNat?
+      let ids ← (ws.take (3 * k)).mapM (·.toNat?)
+      if ids.length ≠ 3 * k then none
+      pure (.tris (triples ids), ws.drop (3 * k))
+  | _ => none
+
+def coordFn (pts : List (P2 Q)) : Nat → P2 Q := fun i => pts.getD i ⟨0, 0⟩
+
+/-! ### input validation (untrusted helper: decides whether the GENERATOR produced a valid input) -/
+
+def sgnQ (q : Q) : Int := if q < 0 then -1 else if 0 < q then 1 else 0
+
+def onSegQ (a b p : P2 Q) : Bool :=
+  orient a b p == 0 && decide (min a.x b.x ≤ p.x) && decide (p.x ≤ max a.x b.x) &&
+    decide (min a.y b.y ≤ p.y) && decide (p.y ≤ max a.y b.y)
+
+def segsTouch (a b c d : P2 Q) : Bool :=
+  let o1 := sgnQ (orient a b c); let o2 := sgnQ (orient a b d)
+  let o3 := sgnQ (orient c d a); let o4 := sgnQ (orient c d b)
+  (o1 * o2 < 0 && o3 * o4 < 0) || onSegQ a b c || onSegQ a b d || onSegQ c d a || onSegQ c d b
+
+def loopSlices : List Nat → List (P2 Q) → List (List (P2 Q))
+  | [], _ => []
+  | n :: ns, ps => ps.take n :: loopSlices ns (ps.drop n)
+
+def edgesOfLoop (l : List (P2 Q)) : List (P2 Q × P2 Q) :=
+  match l with
+  | [] => []
+  | a :: t => List.zip (a :: t) (t ++ [a])
+
+/-- strictly simple closed polygon (straight vertices allowed, spikes not) -/
+def simpleLoop (l : List (P2 Q)) : Bool :=
+  let n := l.length
+  let es := edgesOfLoop l
+  decide (3 ≤ n) && decide l.Nodup && shoelace2 l != 0 &&
+  (List.range n).all (fun i =>
+    let a := curAt l i; let b := nextAt l i; let c := nextAt l ((i + 1) % n)
+    orient a b c != 0 || onSegQ a c b) &&
+  (List.range n).all fun i => (List.range n).all fun j =>
+    if i + 1 < j && !(i == 0 && j + 1 == n) then
+      match es[i]?, es[j]? with
+      | some e, some f => !segsTouch e.1 e.2 f.1 f.2
+      | _, _ => false
+    else true
+
+def insideQ (l : List (P2 Q)) (q : P2 Q) : Bool :=
+  (edgesOfLoop l).foldl (fun acc e =>
+    let a := e.1; let b := e.2
+    if decide (a.y ≤ q.y) != decide (b.y ≤ q.y) then
+      let o := orient a b q
+      if a.y < b.y then (if 0 < o then !acc else acc) else (if o < 0 then !acc else acc)
+    else acc) false
+
+/-- loops simple, pairwise non-touching, orientation alternating with nesting depth (outer loops
+clockwise — the documented convention: normals point out of the solid). -/
+def validRegion (loops : List (List (P2 Q))) : Bool :=
+  loops.all simpleLoop &&
+  (List.range loops.length).all (fun i => (List.range loops.length).all fun j =>
+    if i < j then
+      match loops[i]?, loops[j]? with
+      | some a, some b => (edgesOfLoop a).all fun e => (edgesOfLoop b).all fun f => !segsTouch e.1 e.2 f.1 f.2
+      | _, _ => false
+    else true) &&
+  (List.range loops.length).all fun i =>
+    match loops[i]? with
+    | some a =>
+      let depth := ((List.range loops.length).filter fun j =>
+        j != i && (match loops[j]? with | some b => insideQ b (a.headD ⟨0, 0⟩) | none => false)).length
+      (depth % 2 == 0) == isClockwise a
+    | none => false
+
+/-! ### output -/
+
+def absQ (q : Q) : Q := if q < 0 then -q else q
+
+/-- twice the region area, clockwise loops counted positively -/
+def regionArea2 (loops : List (List (P2 Q))) : Q := loops.foldl (fun s l => s - shoelace2 l) 0
+
+def expectCount (loops : List (List (P2 Q))) : Int :=
+  loops.foldl (fun s l => s + (l.length : Int) + (if isClockwise l then -2 else 2)) 0
+
+/-- Why a certificate fails (diagnosis only; the verdict is `certOk`). -/
+def reason (c : Nat → P2 Q) (nv : Nat) (cw : Bool) (bnd : List Edge) (tris : List Tri) : String :=
+  if !tris.all (fun t => decide (t.1 < nv) && decide (t.2.1 < nv) && decide (t.2.2 < nv)) then "foreign-vertex"
+  else if tris.any (fun t => triOrient c t == 0) then "degenerate-triangle"
+  else if !tris.all (fun t => if cw then decide (triOrient c t < 0) else decide (0 < triOrient c t)) then "orientation"
+  else match refineAll c nv bnd, refineAll c nv (dirEdges tris) with
+    | some B, some E =>
+      if !decide E.Nodup then "edge-used-twice-in-same-direction(overlap)"
+      else if !B.all (fun e => E.contains e) then "boundary-edge-not-covered"
+      else if !B.all (fun e => !E.contains (swap e)) then "boundary-edge-traversed-backwards"
+      else if !E.all (fun e => B.contains e || E.contains (swap e)) then "interior-edge-unmatched(gap-or-outside)"
+      else if !decide B.Nodup then "boundary-not-simple"
+      else "area"
+    | _, _ => "refine"
+
+def certLine (c : Nat → P2 Q) (nv : Nat) (cw : Bool) (lens : List Nat) (tris : List Tri) : Option String :=
+  let bnd := loopEdges lens
+  if certOk c nv cw bnd tris then none else some ("bad:" ++ reason c nv cw bnd tris)
+
+def handleEar (inp : Input) : Option String := do
+  let (tf, _) ← parseTris inp.rest
+  let loops := loopSlices inp.lens inp.pts
+  let poly ← loops.head?
+  if loops.length ≠ 1 || !simpleLoop poly then some "invalid-input" else
+  let a2 := absQ (shoelace2 poly)
+  match tf with
+  | .panic => some s!"ok area={showRat (a2 / 2)} n=?"
+  | .foreign => some "bad:foreign-vertex"
+  | .tris ts =>
+    let c := coordFn inp.pts
+    match certLine c poly.length (isClockwise poly) inp.lens ts with
+    | some b => some b
+    | none =>
+      if ts.length + 2 ≤ poly.length then some s!"ok area={showRat (a2 / 2)} n={ts.length}"
+      else some "bad:too-many-triangles"
+
+def handleMesh (inp : Input) : Option String := do
+  let (tf, _) ← parseTris inp.rest
+  let loops := loopSlices inp.lens inp.pts
+  if !validRegion loops then some "invalid-input" else
+  let a2 := regionArea2 loops
+  let cnt := expectCount loops
+  let okLine := s!"ok area={showRat (a2 / 2)} n={cnt}"
+  match tf with
+  | .panic => some okLine
+  | .foreign => some "bad:foreign-vertex"
+  | .tris ts =>
+    let c := coordFn inp.pts
+    match certLine c inp.pts.length true inp.lens ts with
+    | some b => some b
+    | none => if (ts.length : Int) = cnt then some okLine else some s!"bad:count={ts.length}"
+
+def showTris (ts : List Tri) : String :=
+  s!"T {ts.length}" ++ String.join (ts.map fun t => s!" {t.1} {t.2.1} {t.2.2}")
+
+def handleMono (inp : Input) : Option String :=
+  let c := coordFn inp.pts
+  match monoTris c (loopsOfLens inp.lens) with
+  | none => some "panic"
+  | some ts => some (showTris ts)
+
+def handleVType (inp : Input) : Option String :=
+  let c := coordFn inp.pts
+  let m := loopsOfLens inp.lens
+  let order := sweepOrder c m
+  some (" ".intercalate (order.map fun v =>
+    match vtypeOf c m v with
+    | some t => s!"{v}:{t.code}"
+    | none => s!"{v}:panic"))
+
+def handleSplits (inp : Input) : Option String :=
+  let c := coordFn inp.pts
+  match sweepSplits c (loopsOfLens inp.lens) with
+  | none => some "panic"
+  | some es => some (s!"S {es.length}" ++ String.join (es.map fun e => s!" {e.1} {e.2}"))
+
+/-- ids of the points of a model triangle list -/
+def idOf (pts : List (P2 Q)) (p : P2 Q) : Nat := pts.findIdx (· == p)
+
+def handleEarSeq (inp : Input) : Option String :=
+  match triangulate false (inp.pts.length + 1) inp.pts with
+  | none => some "panic"
+  | some ts => some (showTris (ts.map fun t => (idOf inp.pts t.1, idOf inp.pts t.2.1, idOf inp.pts t.2.2)))
+
+/-! ### planar 3-D faces -/
+
+def triples3 : List Int → List (Int × Int × Int)
+  | a :: b :: c :: t => (a, b, c) :: triples3 t
+  | _ => []
+
+def handleFace : List String → Option String
+  | "D" :: d :: "P" :: n :: ws => do
+      let den ← d.toNat?
+      if den = 0 then none
+      let n ← n.toNat?
+      let (is, rest) ← takeInts (3 * n) ws
+      let (tf, _) ← parseTris rest
+      let p3 : List (Q × Q × Q) := (triples3 is).map fun p => ((p.1 : Q) / den, (p.2.1 : Q) / den, (p.2.2 : Q) / den)
+      -- Newell normal
+      let es := match p3 with | [] => [] | a :: t => List.zip (a :: t) (t ++ [a])
+      let nx := es.foldl (fun s e => s + (e.1.2.1 - e.2.2.1) * (e.1.2.2 + e.2.2.2)) (0 : Q)
+      let ny := es.foldl (fun s e => s + (e.1.2.2 - e.2.2.2) * (e.1.1 + e.2.1)) (0 : Q)
+      let nz := es.foldl (fun s e => s + (e.1.1 - e.2.1) * (e.1.2.1 + e.2.2.1)) (0 : Q)
+      let p0 := p3.headD (0, 0, 0)
+      let planar := p3.all fun p => nx * (p.1 - p0.1) + ny * (p.2.1 - p0.2.1) + nz * (p.2.2 - p0.2.2) == 0
+      -- exact affine chart: drop a coordinate along which the normal does not vanish
+      let pts : List (P2 Q) :=
+        if nz != 0 then p3.map fun p => ⟨p.1, p.2.1⟩
+        else if nx != 0 then p3.map fun p => ⟨p.2.1, p.2.2⟩
+        else p3.map fun p => ⟨p.2.2, p.1⟩
+      if !planar || !simpleLoop pts then some "invalid-input" else
+      match tf with
+      | .panic => some "ok n=?"
+      | .foreign => some "bad:foreign-vertex"
+      | .tris ts =>
+        match certLine (coordFn pts) n (isClockwise pts) [n] ts with
+        | some b => some b
+        | none => if ts.length + 2 ≤ n then some s!"ok n={ts.length}" else some "bad:too-many-triangles"
+  | _ => none
+
+/-! ### ProfileMesh -/
+
+def handleProfile (inp : Input) : Option String :=
+  match inp.rest with
+  | "Z" :: z0 :: z1 :: rest => do
+      let z0 ← z0.toInt?
+      let z1 ← z1.toInt?
+      let (tf, _) ← parseTris rest
+      let loops := loopSlices inp.lens inp.pts
+      if !validRegion loops || z1 ≤ z0 then some "invalid-input" else
+      let q0 : Q := (z0 : Q) / inp.den
+      let q1 : Q := (z1 : Q) / inp.den
+      let a2 := regionArea2 loops
+      let cnt := 2 * expectCount loops + 2 * (inp.pts.length : Int)
+      let okLine := s!"ok vol={showRat (a2 / 2 * (q1 - q0))} n={cnt}"
+      match tf with
+      | .panic => some okLine
+      | .foreign => some "bad:foreign-vertex"
+      | .tris ts =>
+        if !closedManifold ts then some "bad:not-closed-manifold"
+        else
+          let v6 := vol6 (lift (coordFn inp.pts) q0 q1) ts
+          if v6 / 6 != a2 / 2 * (q1 - q0) then some s!"bad:volume={showRat (v6 / 6)}"
+          else if (ts.length : Int) ≠ cnt then some s!"bad:count={ts.length}"
+          else some okLine
+  | _ => none
+
+def handleAll (ws : List String) : Option String :=
+  match ws with
+  | "ear" :: r => parseInput r >>= handleEar
+  | "mesh" :: r => parseInput r >>= handleMesh
+  | "single" :: r => parseInput r >>= handleMesh
+  | "mono" :: r => parseInput r >>= handleMono
+  | "vtype" :: r => parseInput r >>= handleVType
+  | "splits" :: r => parseInput r >>= handleSplits
+  | "earseq" :: r => parseInput r >>= handleEarSeq
+  | "face" :: r => handleFace r
+  | "profile" :: r => parseInput r >>= handleProfile
+  | _ => none
 
 end M3d.Drv.C14
